@@ -991,19 +991,27 @@ static FORCED_NON_BLOCKING: Lazy<DashMap<c_int, usize>> = Lazy::new(Default::def
 /// Force the descriptor of a caller that left it blocking into non-blocking mode
 /// for the duration of a hooked call.
 ///
+/// A descriptor that has been closed meanwhile is left alone: the call that follows
+/// gets the kernel's `EBADF`.
+///
 /// # Panics
-/// if set fails.
+/// if set fails on an open descriptor.
 pub extern "C" fn set_non_blocking(fd: c_int) {
-    let mut calls = FORCED_NON_BLOCKING.entry(fd).or_insert(0);
-    *calls += 1;
-    assert!(set_non_blocking_flag(fd, true), "set_non_blocking failed !");
+    if !set_non_blocking_flag(fd, true) {
+        assert!(descriptor_gone(), "set_non_blocking failed !");
+        return;
+    }
+    *FORCED_NON_BLOCKING.entry(fd).or_insert(0) += 1;
 }
 
 /// Leave a hooked call that used [`set_non_blocking`]; the last such call
 /// puts the descriptor back into blocking mode.
 ///
+/// A descriptor that was closed while the call was parked on it (the usual way
+/// to get rid of a reader) has no mode to put back.
+///
 /// # Panics
-/// if set fails.
+/// if set fails on an open descriptor.
 pub extern "C" fn set_blocking(fd: c_int) {
     if let dashmap::mapref::entry::Entry::Occupied(mut calls) = FORCED_NON_BLOCKING.entry(fd) {
         if *calls.get() > 1 {
@@ -1011,11 +1019,22 @@ pub extern "C" fn set_blocking(fd: c_int) {
             return;
         }
         // still holding the entry: a call that enters now waits until the flag is back
-        assert!(set_non_blocking_flag(fd, false), "set_blocking failed !");
+        assert!(
+            set_non_blocking_flag(fd, false) || descriptor_gone(),
+            "set_blocking failed !"
+        );
         _ = calls.remove();
         return;
     }
-    assert!(set_non_blocking_flag(fd, false), "set_blocking failed !");
+    assert!(
+        set_non_blocking_flag(fd, false) || descriptor_gone(),
+        "set_blocking failed !"
+    );
+}
+
+/// the last `fcntl` failed because the descriptor is not open (any more)
+fn descriptor_gone() -> bool {
+    std::io::Error::last_os_error().raw_os_error() == Some(libc::EBADF)
 }
 
 extern "C" fn set_non_blocking_flag(fd: c_int, on: bool) -> bool {
